@@ -132,7 +132,7 @@ variant('t-rrreq-inverted-if', ['C07', 'C10', 'C08', 'C09'], H + 'request_respon
                 self._future.set_result(payload_from_frame(frame))
             self._finish_stream()
 """, kind='twin')
-variant('t-channel-renamed-flags', ['C07', 'C10', 'C08', 'C09'], H + 'request_cahnnel_common.py',
+variant('t-channel-renamed-flags', ['C07', 'C10', 'C08', 'C09', 'C01', 'C06'], H + 'request_cahnnel_common.py',
         "_received_complete", "_inbound_closed", kind='twin', count=4)
 variant('t-streamcontrol-del', ['C07', 'C10', 'C08', 'C09', 'C11'], 'rsocket/stream_control.py',
         "        self._streams.pop(stream_id, None)\n",
@@ -2494,3 +2494,56 @@ variant('b-close-sequence-error-text-as-str', ['C07'], RB,
 variant('t-close-sequence-error-text-as-bytes-constant', ['C07', 'C12'], RB,
         "            self.stop_all_streams()\n            self._fail_unsent_frames()",
         "            self.stop_all_streams(data=b'Connection closed')\n            self._fail_unsent_frames()", kind='twin')
+
+# C19.c nothing carried from one parameter to the next
+variant_multi('b-collector-payload-value-carried-between-parameters', ['C19'], [
+    ('rsocket/routing/request_router.py',
+     "        route_kwargs = {}\n\n        for parameter in route_signature.parameters:",
+     "        route_kwargs = {}\n        payload_data = payload\n\n        for parameter in route_signature.parameters:"),
+    ('rsocket/routing/request_router.py',
+     "            else:\n                payload_data = payload\n\n                if parameter_type",
+     "            else:\n                if parameter_type")],
+    ('C19.c', '_collect_route_arguments'))
+variant('t-collector-loop-over-items', ['C19'], 'rsocket/routing/request_router.py',
+        "        for parameter in route_signature.parameters:\n            parameter_type = route_signature.parameters[parameter]\n",
+        "        for parameter, parameter_type in route_signature.parameters.items():\n", kind='twin')
+
+# C12.o error codes are members of ErrorCode
+variant('b-unknown-error-code-kept-as-int', ['C12'], 'rsocket/frame.py',
+        "        self.error_code = ErrorCode(unpack_32bit(buffer, offset))\n",
+        "        code = unpack_32bit(buffer, offset)\n        self.error_code = ErrorCode(code) if code in ErrorCode._value2member_map_ else code\n",
+        ('C12.o', 'ErrorFrame.parse'))
+variant('t-error-code-through-a-local', ['C12', 'C02'], 'rsocket/frame.py',
+        "        self.error_code = ErrorCode(unpack_32bit(buffer, offset))\n",
+        "        code = ErrorCode(unpack_32bit(buffer, offset))\n        self.error_code = code\n", kind='twin')
+
+# C13.j a live stream's id is released only with a terminal frame
+variant('b-request-n-rejection-releases-a-live-id', ['C13', 'C10'], H + 'request_stream_requester.py',
+        "    def request(self, n: int):\n        self.send_request_n(n)\n",
+        "    def request(self, n: int):\n        if n <= 0:\n            self._finish_stream()\n            raise ValueError('Request N must be > 0')\n        self.send_request_n(n)\n",
+        ('C13.j', 'RequestStreamRequester.request'))
+variant('t-request-n-rejection-cancels-the-stream', ['C13', 'C10', 'C08', 'C09'], H + 'request_stream_requester.py',
+        "    def request(self, n: int):\n        self.send_request_n(n)\n",
+        "    def request(self, n: int):\n        if n <= 0:\n            self.cancel()\n            raise ValueError('Request N must be > 0')\n        self.send_request_n(n)\n",
+        kind='twin')
+
+# C09.e shared into C11: the drain of the close sequence settles each sent-future under the at-most-once guard
+variant('b-unsent-frames-failed-without-the-done-guard', ['C11', 'C09'], RB,
+        "        if frame.sent_future is not None and not frame.sent_future.done():\n            frame.sent_future.set_exception(RSocketProtocolError(ErrorCode.CONNECTION_ERROR",
+        "        if frame.sent_future is not None:\n            frame.sent_future.set_exception(RSocketProtocolError(ErrorCode.CONNECTION_ERROR",
+        ('C09.e', '_fail_sent_future'))
+
+# C17.i the provider is iterated once
+variant_multi('b-provider-iterated-afresh-on-every-connect', ['C17'], [
+    ('rsocket/rsocket_client.py', "        self._transport_provider = transport_provider.__aiter__()\n",
+     "        self._transport_provider = transport_provider\n"),
+    ('rsocket/rsocket_client.py',
+     "        try:\n            return await self._transport_provider.__anext__()\n        except StopAsyncIteration:\n            return\n",
+     "        async for transport in self._transport_provider:\n            return transport\n")],
+    ('C17.i', '_get_new_transport'))
+variant('b-provider-iterator-made-again-per-connect', ['C17'], 'rsocket/rsocket_client.py',
+        "            return await self._transport_provider.__anext__()\n",
+        "            return await self._transport_provider.__aiter__().__anext__()\n", ('C17.i', '_get_new_transport'))
+variant('t-next-transport-through-a-local', ['C17', 'C16'], 'rsocket/rsocket_client.py',
+        "            return await self._transport_provider.__anext__()\n",
+        "            transport = await self._transport_provider.__anext__()\n            return transport\n", kind='twin')
